@@ -4,6 +4,7 @@
 // Signals: ordered vector of live connection ids; every callback logs (connection, argument);
 // results are folded with a non-commutative combiner; unregister callbacks are counted per connection.
 #include <vf.hpp>
+#include <heavy.hpp>
 
 #include <fcppt/function.hpp>
 #include <fcppt/intrusive/base.hpp>
@@ -750,6 +751,139 @@ struct signal_runner
   }
 };
 
+
+// ---- arguments of class type passed BY VALUE: "calling a signal invokes exactly the callbacks whose connection is alive,
+// once each" - each with the call's argument.  A callback that takes its parameter by value (and may move it on) must
+// not change what the later callbacks receive; the result is the left fold over the values computed from the argument.
+struct byvalue_runner
+{
+  std::string name;
+  template <class Sig, class Arg, class Show, class Use>
+  void one_signature(char const *signame, std::uint64_t h, vf::rng &g, std::vector<Arg> const &values, Show show, Use use)
+  {
+    constexpr bool returns = !std::is_void_v<typename Sig::result_type>;
+    std::unique_ptr<Sig> sig;
+    if constexpr (returns)
+      sig = std::make_unique<Sig>(typename Sig::combiner_function{&combine});
+    else
+      sig = std::make_unique<Sig>();
+    std::vector<std::optional<fcppt::signal::auto_connection>> conns;
+    std::vector<int> ids;
+    std::vector<std::pair<int, std::string>> seen; // (connection id, the argument as this callback received it)
+    int next_id = 1;
+    unsigned const steps = 4 + static_cast<unsigned>(g.below(8));
+    for (unsigned q = 0; q < steps; ++q)
+    {
+      unsigned const op = static_cast<unsigned>(g.below(4));
+      if (op <= 1 && conns.size() < 6)
+      {
+        int const id = next_id++;
+        bool const greedy = g.below(2) == 0; // takes the parameter by value and moves it on
+        vf::extend_case(" connect(%d%s)", id, greedy ? ",moves" : "");
+        using fn = typename Sig::function;
+        auto cb = [id, greedy, &seen, show, use](Arg a) {
+          seen.emplace_back(id, show(a));
+          int const r = callback_value(id, use(a));
+          if (greedy)
+          {
+            Arg sink(std::move(a));
+            (void)sink;
+          }
+          if constexpr (returns)
+            return r;
+          else
+            (void)r;
+        };
+        conns.emplace_back(sig->connect(fn{cb}));
+        ids.push_back(id);
+      }
+      else if (op == 2 && !conns.empty())
+      {
+        std::size_t const k = g.below(conns.size());
+        vf::extend_case(" drop(%d)", ids[k]);
+        conns.erase(conns.begin() + static_cast<std::ptrdiff_t>(k));
+        ids.erase(ids.begin() + static_cast<std::ptrdiff_t>(k));
+      }
+      else
+      {
+        Arg const &v = values[g.below(values.size())];
+        bool const as_rvalue = g.below(2) == 0;
+        vf::extend_case(" call(%s%s)", show(v).c_str(), as_rvalue ? ",rvalue" : ",lvalue");
+        seen.clear();
+        Arg lv(v);
+        int got = 0, want = 1000;
+        if constexpr (returns)
+        {
+          got = as_rvalue ? (*sig)(typename Sig::initial_value{1000}, Arg(v)) : (*sig)(typename Sig::initial_value{1000}, lv);
+          for (int id : ids)
+            want = combine(want, callback_value(id, use(v)));
+        }
+        else
+        {
+          if (as_rvalue)
+            (*sig)(Arg(v));
+          else
+            (*sig)(lv);
+        }
+        VF_COUNT("signal/by-value/calls");
+        if (ids.size() >= 2)
+          VF_COUNT("signal/by-value/calls-with-two-or-more-connections");
+        std::string const key = std::string("signal/by-value<") + signame + ">";
+        if (seen.size() != ids.size())
+          vf::violation(key + "/invoked-count", "mismatch", std::to_string(seen.size()) + " callbacks invoked, " + std::to_string(ids.size()) + " connections alive");
+        else
+          for (std::size_t k = 0; k < ids.size(); ++k)
+          {
+            if (seen[k].first != ids[k])
+              vf::violation(key + "/order", "mismatch", "position " + std::to_string(k));
+            if (seen[k].second != show(v))
+            {
+              vf::violation(key + "/argument-seen-by-later-callback", "mismatch",
+                            "callback " + std::to_string(k) + " of " + std::to_string(ids.size()) + " received " + seen[k].second + " for the argument " + show(v));
+              break;
+            }
+          }
+        if (returns && got != want)
+          vf::violation(key + "/fold", "mismatch", "result " + std::to_string(got) + ", left fold of the callbacks on the argument gives " + std::to_string(want));
+        if (!as_rvalue && show(lv) != show(v))
+          vf::violation(key + "/lvalue-argument-changed", "mismatch", show(lv) + " after the call, was " + show(v));
+      }
+    }
+    (void)h;
+  }
+  void run(std::uint64_t h, std::string const &e)
+  {
+    vf::rng g(vf::seed_for(e, h));
+    auto show_s = [](std::string const &x) { return "\"" + x + "\""; };
+    auto use_s = [](std::string const &x) { return static_cast<int>(x.size()) * 3 + (x.empty() ? 0 : x[0]); };
+    std::vector<std::string> const strs{"", "a", "a-string-long-enough-to-live-on-the-heap-0123456789", "zz"};
+    auto show_p = [](std::shared_ptr<int> const &x) { return x ? "ptr(" + std::to_string(*x) + ")" : std::string("null"); };
+    auto use_p = [](std::shared_ptr<int> const &x) { return x ? *x : -1; };
+    std::vector<std::shared_ptr<int>> const ptrs{std::make_shared<int>(7), std::make_shared<int>(40), nullptr};
+    auto show_h = [](vf::heavy const &x) { return std::to_string(x.get()); };
+    auto use_h = [](vf::heavy const &x) { return static_cast<int>(x.get()); };
+    std::vector<vf::heavy> const hs{vf::heavy(3), vf::heavy(0), vf::heavy(-12)};
+    switch (h % 5)
+    {
+    case 0:
+      one_signature<fcppt::signal::object<void(std::string)>, std::string>("void(string)", h, g, strs, show_s, use_s);
+      break;
+    case 1:
+      one_signature<fcppt::signal::object<int(std::string)>, std::string>("int(string)", h, g, strs, show_s, use_s);
+      break;
+    case 2:
+      one_signature<fcppt::signal::object<int(std::shared_ptr<int>)>, std::shared_ptr<int>>("int(shared_ptr)", h, g, ptrs, show_p, use_p);
+      break;
+    case 3:
+      one_signature<fcppt::signal::object<void(vf::heavy)>, vf::heavy>("void(heavy)", h, g, hs, show_h, use_h);
+      break;
+    default:
+      one_signature<fcppt::signal::object<int(vf::heavy)>, vf::heavy>("int(heavy)", h, g, hs, show_h, use_h);
+      break;
+    }
+  }
+};
+
 template <class Runner>
 void drive(std::string const &e, std::uint64_t total)
 {
@@ -787,7 +921,8 @@ void body()
         "signal/op/signal-move-ctor-with-connections", "signal/op/signal-move-assign-nonempty-to-nonempty",
         "signal/op/signal-move-assign-empty-to-nonempty", "signal/op/destroy-signal-before-connections",
         "signal/callbacks-invoked", "signal/reentrant-calls-from-unregister", "signal/call/callback-throws", "signal/call/callback-destroys-next-connection",
-        "signal/call/callback-destroys-later-connection", "signal/call/callback-destroys-previous-connection", "signal/call/callback-destroys-earlier-connection"})
+        "signal/call/callback-destroys-later-connection", "signal/call/callback-destroys-previous-connection", "signal/call/callback-destroys-earlier-connection",
+        "signal/by-value/calls-with-two-or-more-connections"})
     vf::require_bucket(b);
   std::uint64_t total = vf::tier<std::uint64_t>(30000, 4000000);
   if (vf::has_extra("--small")) // the memcheck pass
@@ -801,6 +936,7 @@ void body()
   drive<signal_runner<s_int, true, false>>("signal<int(int)>", total / 6);
   drive<signal_runner<s_void_u, false, true>>("signal<void(int),unregister>", total / 6);
   drive<signal_runner<s_int_u, true, true>>("signal<int(int),unregister>", total / 6);
+  drive<byvalue_runner>("signal-by-value-arguments", total / 10);
 }
 }
 
